@@ -103,10 +103,13 @@ def run(ctx):
         if ctx.quick:
             closure(ctx, exe, "q3", K4, 3, good, False, False, True, 1, props)
             rand_phase(ctx, exe, "rand", rng, 40, 12, 10, 2500, 2, props)
+            # tables of 100-250 buckets: work per keyed operation must stay bounded however large the table is
+            rand_phase(ctx, exe, "rand-big", rng, 120, 30, 250, 700, 1, props, faults=0)
         else:
             closure(ctx, exe, "q3", K4, 3, good, False, True, True, 2, props)
             closure(ctx, exe, "t4", K5, 4, good, False, False, False, 1, props)
             rand_phase(ctx, exe, "rand", rng, 64, 16, 24, 20000, 3, props)
+            rand_phase(ctx, exe, "rand-big", rng, 200, 36, 600, 3000, 2, props, faults=0)
     ctx.assumptions += [
         "TLC and the TLA+ text of the contract operators in HashOps.tla / TraceHash.tla are trusted",
         "the driver's serialiser reads the real bucket array, clean bits and pending geometry from struct cstl_hash",
